@@ -2,13 +2,15 @@
 //! novaclemmas: lemmas live in nested modules (probe scope); their preconditions are index ranges only
 //! properties: C11
 //! note: confirmation thresholds of both OnchainEventEntry types (channelmonitor.rs, onchaintx.rs)
-//! trusted: assume_specification for core::cmp::max (its std definition); foreign payload types (Txid, BlockHash, Transaction, HTLCSource, PaymentHash, PaymentPreimage, Amount, OutPoint, TxOut) are opaque structs; SpendableOutputDescriptor / DelayedPaymentOutputDescriptor are skeletons keeping the fields the code reads
+//! trusted: assume_specification for core::cmp::max / core::cmp::min (their std definitions); foreign payload types (Txid, BlockHash, Transaction, HTLCSource, PaymentHash, PaymentPreimage, Amount, OutPoint, TxOut) are opaque structs; SpendableOutputDescriptor / DelayedPaymentOutputDescriptor are skeletons keeping the fields the code reads
 //! trusted: u11b: ChannelMonitorImpl is a self skeleton (R5) with the fields blocks_disconnected touches; OnchainTxHandler::blocks_disconnected/transaction_unconfirmed, cancel_prev_commitment_claims, closure_conf_target, queue_latest_holder_commitment_txn_for_broadcast are external_body with the frame "does not touch best_block / onchain_events_awaiting_threshold_conf" assumed (they only read best_block); Txid equality is spec equality; R6e for Vec::retain
 //! assume: 1 <= height <= 2^31-1 for entries (height == 0 with csv == 0 would underflow `height + csv - 1`; LDK never records height 0)
 use vstd::prelude::*;
 verus! {
 use vstd::std_specs::cmp::*;
 use core::cmp;
+pub assume_specification<T: core::cmp::Ord>[core::cmp::min::<T>](a: T, b: T) -> (r: T)
+    ensures T::obeys_cmp_spec() ==> r == (if b.cmp_spec(&a) == core::cmp::Ordering::Less { b } else { a });
 pub assume_specification<T: core::cmp::Ord>[core::cmp::max::<T>](a: T, b: T) -> (r: T)
     ensures T::obeys_cmp_spec() ==> r == (if b.cmp_spec(&a) == core::cmp::Ordering::Less { a } else { b });
 //@const lightning/src/chain/channelmonitor.rs ANTI_REORG_DELAY
